@@ -42,3 +42,14 @@ pub fn crash_point(tag: &'static str) {
         f(tag);
     }
 }
+
+/// Fires a crash point when it goes out of scope (i.e. after the write the enclosing function ends with).
+pub struct CrashPointOnDrop(pub &'static str);
+
+impl Drop for CrashPointOnDrop {
+    fn drop(&mut self) {
+        if !std::thread::panicking() {
+            crash_point(self.0);
+        }
+    }
+}
